@@ -470,7 +470,7 @@ def run_job(job):
     st = {"driver": drv_cls.drv_name(), "family": drv_cls.family, "cfg": cfg_name, "exec": 0, "events": 0,
           "nontriv": 0, "outcomes": set(), "viol": {}, "errors": 0, "error_sample": None, "horizon": 0,
           "pushes": 0, "lib_deliveries": 0, "completed": 0, "requests": 0, "out": 0, "max_same": 0,
-          "instances": None, "sample": None, "wall": 0.0, "outcome_kinds": {}}
+          "instances": None, "sample": None, "wall": 0.0, "outcome_kinds": {}, "flaky": [], "nondet": 0}
     t0 = time.time()
     probe = {0, len(pats) // 3, len(pats) // 2, (2 * len(pats)) // 3, len(pats) - 1}
     for k, pat in enumerate(pats):
@@ -498,8 +498,18 @@ def run_job(job):
         st["max_same"] = max(st["max_same"], r.max_same)
         for fp, desc in r.violations:
             if fp not in st["viol"]:
+                # re-execute the case from its replay data before reporting it (same schedule, same verdict)
+                again = run_scenario(drv_cls, cfg, pat)
+                if fp not in [f for f, _d in again.violations]:
+                    st["flaky"].append({"fingerprint": fp, "pattern": list(pat)})
+                    continue
                 st["viol"][fp] = [desc, {"driver": drv_cls.drv_name(), "cfg": cfg_name, "pattern": list(pat)}, 0]
             st["viol"][fp][2] += 1
+        if k in probe and r.outcome not in ("error", "wall-timeout"):
+            # determinism self-check on a slice of the schedules: identical delivery trace on re-execution
+            again = run_scenario(drv_cls, cfg, pat)
+            if digest((again.trace[:400], again.outcome)) != digest((r.trace[:400], r.outcome)):
+                st["nondet"] += 1
         if st["sample"] is None and len(pat) == min(3, tp["max_req"]) and r.events:
             st["sample"] = {"driver": drv_cls.drv_name(), "cfg": cfg_name, "pattern": list(pat),
                             "outcome": r.outcome, "deliveries": r.events, "first_deliveries": r.trace[:6]}
